@@ -12,15 +12,16 @@ import (
 )
 
 type Gen struct {
-	r       *rand.Rand
-	tier    string
-	w       *bufio.Writer
-	stats   map[string]int
-	vectors bool
-	nobj    int
-	univ    map[string]*Universe // per segment name
-	ndocs   map[string]int       // per segment name: upper bound of doc count
-	curMode int
+	r          *rand.Rand
+	tier       string
+	w          *bufio.Writer
+	stats      map[string]int
+	vectors    bool
+	nobj       int
+	univ       map[string]*Universe // per segment name
+	ndocs      map[string]int       // per segment name: upper bound of doc count
+	curMode    int
+	batchNames []string
 }
 
 func newGen(seed int64, tier string, w *bufio.Writer) *Gen {
@@ -246,6 +247,7 @@ func (g *Gen) randBatch(name string, cfg batchCfg) *BatchSpec {
 var synTerms = [][]byte{[]byte("p"), []byte("q"), []byte("pq"), []byte("r"), []byte("s\xc3\xa9"), []byte("tt")}
 
 func (g *Gen) emitBatch(b *BatchSpec) {
+	g.batchNames = append(g.batchNames, b.Name)
 	for _, l := range b.Lines() {
 		g.emit("%s", l)
 	}
@@ -976,7 +978,11 @@ func (g *Gen) genC08(n int) error {
 func (g *Gen) randRange(terms []string) (string, string) {
 	cands := [][]byte{[]byte("!"), []byte("a"), []byte("aa"), []byte("ab"), []byte("b"), []byte("bz"), []byte("m"), []byte("zz"), []byte("zzz"), []byte("\xff")}
 	for _, t := range terms {
-		cands = append(cands, []byte(t))
+		// the empty key is not usable as a bound: vellum (like any Go API taking
+		// []byte) cannot tell an empty end key from an absent one
+		if len(t) > 0 {
+			cands = append(cands, []byte(t))
+		}
 	}
 	sort.Slice(cands, func(i, j int) bool { return string(cands[i]) < string(cands[j]) })
 	a := g.r.Intn(len(cands))
